@@ -53,6 +53,7 @@ def k_ite(c, a, b):
 # --------------------------------------------------------------------------- view of a leaf
 class View:
     def __init__(self, program, leaf):
+        program = dsl.effective(program)
         self.program = program
         self.leaf = leaf
         self.dd = dsl.decl_by_id(program)
